@@ -27,3 +27,14 @@ Proof. exact value_is_some_fetch. Qed.
    such a feedback edge is a plain history of writes and completions, so the theorems above cover it *)
 Theorem C15_feedback_is_plain : forall es, exists es', fold_left rstep_fb es rinit = rrun es'.
 Proof. intros es. exact (fb_is_plain es rinit). Qed.
+
+(* a fetch that writes the dependency itself in its last poll, before returning, is superseded before it can deliver: such a
+   history is the plain history in which that completion is replaced by the dependency write, so the theorems above cover it
+   (in particular the superseded fetch never installs its value and is_loading stays true) *)
+Theorem C15_self_write_is_plain : forall es, exists es', fold_left rstep_self es rinit = rrun es'.
+Proof. intros es. exact (self_is_plain es rinit). Qed.
+
+Example C15_self_write_example :
+  let s := fold_left rstep_self [RWrite 7; RComplete 1]%Z rinit in
+  r_value s = None /\ r_loading s = true /\ List.length (r_fetches s) = 3.
+Proof. vm_compute. repeat split. Qed.
